@@ -180,6 +180,18 @@ fn skip_until_1<const N: usize, const M: usize>() {
     core::mem::forget(st);
 }
 
+/// concrete needles (the memchr-accelerated memmem::find explodes under CBMC with a symbolic needle)
+fn skip_until_fixed<const N: usize>() {
+    let mut b = [0u8; N];
+    let s = sym_str::<N>(&mut b);
+    let st: Box<ParserState<'_, R>> = ParserState::new(s);
+    let st = st.skip_until(&["ab"]).unwrap();
+    let want = ref_until(s.as_bytes(), &[b"ab"]);
+    assert!(st.position().pos() == want);
+    kani::cover!(want == 1 && s.len() == 4);
+    core::mem::forget(st);
+}
+
 fn skip_until_2<const N: usize, const M: usize>() {
     let mut b = [0u8; N];
     let s = sym_str::<N>(&mut b);
@@ -225,3 +237,5 @@ h!(c03_skip_until_1_4_2, 7, skip_until_1::<4, 2>());
 h!(c03_skip_until_2_3_1, 6, skip_until_2::<3, 1>());
 h!(c03_skip_until_2_4_2, 7, skip_until_2::<4, 2>());
 h!(c03_ends_3, 6, ends::<3>());
+h!(c03_skip_until_fixed_4, 7, skip_until_fixed::<4>());
+h!(c03_skip_until_fixed_6, 9, skip_until_fixed::<6>());
